@@ -5,7 +5,7 @@
 From Coq Require Import NArith ZArith Lia Bool List.
 From Coq Require Import ZifyN ZifyBool.
 From MiV Require Import Gen.Consts Gen.Bins Model.Arith Model.Page Model.Span Model.Compose
-  Proofs.Base Proofs.ArithProofs Proofs.BitsProofs Proofs.PageProofs Proofs.SpanBase Proofs.SpanInv Proofs.SpanProofs
+  Proofs.Base Proofs.ArithProofs Proofs.BitsProofs Proofs.PageProofs Proofs.SpanBase Proofs.SpanInv Proofs.SpanProofs Proofs.OsProofs
   Proofs.ComposeBase Proofs.ComposeInv Proofs.ComposeSpan Proofs.ComposeOps Proofs.ComposeSeg.
 Import ListNotations.
 Local Open Scope N_scope.
@@ -193,5 +193,98 @@ Proof.
   unfold pop_block. rewrite Ef, Ep, Ebs.
   assert (E4 : (size <=? bs) = true) by (apply N.leb_le; assumption). rewrite E4.
   unfold page_malloc. destruct (free (cp_page cp')) as [|b rest] eqn:Efr; [contradiction|].
+  eexists _, _. reflexivity.
+Qed.
+
+(* ---- the huge path: a block above MI_LARGE_OBJ_SIZE_MAX in its own segment ---- *)
+
+(* the page area of a span whose block size is above MI_MAX_ALIGN_GUARANTEE is the whole span *)
+Lemma big_page_area base idx cnt bs : base mod MI_SEGMENT_SIZE = 0 -> base + MI_SEGMENT_SIZE < 2^63 ->
+  0 < cnt -> cnt < 4294967296 -> idx <= MI_SLICES_PER_SEGMENT -> MI_MAX_ALIGN_GUARANTEE < bs ->
+  snd (page_start_from_slice base idx cnt bs) = cnt * MI_SEGMENT_SLICE_SIZE.
+Proof.
+  intros Hal Hw Hc Hc32 Hi Hb.
+  destruct (page_start_eq_gen base idx cnt bs Hal Hw Hc Hc32 Hi) as (E & _ & _). cbv zeta in E. rewrite E. cbn [snd].
+  assert (B0 : pstart_off0 (base + idx * MI_SEGMENT_SLICE_SIZE) (cnt * MI_SEGMENT_SLICE_SIZE) bs = 0).
+  { unfold pstart_off0. assert (E0 : (bs <=? MI_MAX_ALIGN_GUARANTEE) = false) by (apply N.leb_gt; assumption).
+    rewrite E0, andb_false_r. reflexivity. }
+  rewrite B0.
+  assert (B1 : pstart_off1 bs 0 = 0).
+  { unfold pstart_off1, MI_INTPTR_SIZE. unfold MI_MAX_ALIGN_GUARANTEE in Hb. destruct (8 <=? bs); [|reflexivity].
+    destruct (bs <=? 64) eqn:E64; [apply N.leb_le in E64; lia|]. destruct (bs <=? 512) eqn:E512; [apply N.leb_le in E512; lia|reflexivity]. }
+  rewrite B1. change ((0 + 15) / 16 * 16) with 0. lia.
+Qed.
+
+Theorem malloc_huge_progress m size base : mem_inv m -> MI_LARGE_OBJ_SIZE_MAX < size -> size < 2^47 ->
+  base_ok m base ((block_size_of size + 131071) / 65536) = true ->
+  exists m' p, mmalloc m size (ChHuge base 0) = Some (m', p).
+Proof.
+  intros Hm Hlo Hhi Hb. cbn [mmalloc].
+  assert (E47 : 2 ^ 47 = 140737488355328) by reflexivity. rewrite E47 in Hhi.
+  unfold MI_LARGE_OBJ_SIZE_MAX in Hlo.
+  assert (Hbs : size <= block_size_of size /\ block_size_of size < 2^47 + 4194304).
+  { unfold block_size_of. assert (E : (size <=? MI_MEDIUM_OBJ_SIZE_MAX) = false) by (apply N.leb_gt; unfold MI_MEDIUM_OBJ_SIZE_MAX; lia).
+    rewrite E. split; [apply OsProofs.good_size_ge; rewrite W64_val; lia|].
+    unfold os_good_alloc_size. change os_page_size_default with 4096. change SIZE_MAX_ with 18446744073709551615.
+    assert (E1 : (size <? 512 * 1024) = false) by (apply N.ltb_ge; lia).
+    assert (E2 : (size <? 2 * 1024 * 1024) = false) by (apply N.ltb_ge; lia).
+    assert (E3 : (size <? 8 * 1024 * 1024) = false) by (apply N.ltb_ge; lia). rewrite E1, E2, E3, E47.
+    destruct (size <? 32 * 1024 * 1024).
+    - assert (E0 : (18446744073709551615 - 1024 * 1024 <=? size) = false) by (apply N.leb_gt; lia). rewrite E0.
+      destruct (align_up_props size (1024 * 1024)) as (_ & A2 & _); [lia|rewrite W64_val; lia|rewrite W64_val; lia|]. lia.
+    - assert (E0 : (18446744073709551615 - 4 * 1024 * 1024 <=? size) = false) by (apply N.leb_gt; lia). rewrite E0.
+      destruct (align_up_props size (4 * 1024 * 1024)) as (_ & A2 & _); [lia|rewrite W64_val; lia|rewrite W64_val; lia|]. lia. }
+  rewrite E47 in Hbs. destruct Hbs as (Hge & Hlt).
+  set (bs := block_size_of size) in *.
+  assert (Ebig : (MI_LARGE_OBJ_SIZE_MAX <? bs) || (0 <? 0) = true).
+  { apply orb_true_iff. left. apply N.ltb_lt. unfold MI_LARGE_OBJ_SIZE_MAX. lia. }
+  rewrite Ebig. unfold huge_seg.
+  set (ss := (bs + 131071) / 65536) in *.
+  assert (Hss : 2 <= ss /\ ss < 4294967296 /\ bs <= (ss - 1) * 65536 /\ 257 <= ss).
+  { unfold ss. pose proof (N.div_mod (bs + 131071) 65536 ltac:(lia)) as D.
+    pose proof (N.mod_lt (bs + 131071) 65536 ltac:(lia)) as M. lia. }
+  destruct Hss as (H2 & H32 & Hcover & H257).
+  assert (Er : segment_request bs 0 = (ss, 1, MI_SEGMENT_SIZE, 0)).
+  { unfold segment_request. rewrite calculate_slices_huge by (rewrite ?W64_val; lia). reflexivity. }
+  rewrite Er.
+  assert (Eb0 : (bs =? 0) = false) by (apply N.eqb_neq; lia).
+  assert (Ec : (2 <=? ss) && (ss <? 4294967296) && (1 =? 1) = true).
+  { apply andb_true_intro. split; [apply andb_true_intro; split|reflexivity]; [apply N.leb_le|apply N.ltb_lt]; assumption. }
+  rewrite Eb0, Ec. cbn [orb negb].
+  destruct (huge_init_inv ss H2 H32) as (st & Hi & Hinv & Hu & Hk & Hinfo & Hn & Hg1 & _).
+  rewrite (segment_init_huge bs 0 ss MI_SEGMENT_SIZE 0 ltac:(lia) Er), Hi, Hinfo.
+  destruct (base_ok_spec _ _ _ Hb) as (B1 & B2 & B3 & _).
+  (* the page area before and after page->block_size = psize *)
+  assert (Ep0 : snd (page_area (mkCSeg base st []) 1) = (ss - 1) * MI_SEGMENT_SLICE_SIZE).
+  { unfold page_area, page_start. cbn [cs_base cs_st]. rewrite Hg1. cbn [slice_count bsz].
+    apply big_page_area; try assumption; unfold MI_SLICES_PER_SEGMENT, MI_MAX_ALIGN_GUARANTEE, MI_SEGMENT_SLICE_SIZE; lia. }
+  rewrite Ep0. set (psize := (ss - 1) * MI_SEGMENT_SLICE_SIZE) in *.
+  assert (HI : span_Inv st) by (exists [(0, 1); (1, ss - 1)], ss; rewrite Hu; exact Hinv).
+  assert (Hused : In (1, ss - 1) (used_spans (fst st))).
+  { apply (In_used_spans _ _ _ _ _ _ Hinv). split; [right; left; reflexivity|]. rewrite Hg1. cbn [bsz].
+    unfold psize, MI_SEGMENT_SLICE_SIZE. lia. }
+  assert (Hps0 : 0 < psize) by (unfold psize, MI_SEGMENT_SLICE_SIZE; lia).
+  pose proof (set_block_size_facts st 1 (ss - 1) psize HI Hused Hps0) as F. cbv zeta in F.
+  destruct F as (_ & _ & _ & Hgi & Hk2 & Hinfo2 & _ & _).
+  set (st2 := set_block_size st 1 psize) in *.
+  assert (Eslices : seg_slices (fst (cs_st (mkCSeg base st2 []))) = ss).
+  { cbn [cs_st]. unfold seg_slices. rewrite Hk2, Hk, Hinfo2, Hinfo, Hgi. cbn [slice_count]. rewrite Hg1. cbn [slice_count]. lia. }
+  rewrite Eslices, Hb.
+  assert (Ep1 : snd (page_area (mkCSeg base st2 []) 1) = psize).
+  { unfold page_area, page_start. cbn [cs_base cs_st]. rewrite Hgi. cbn [slice_count bsz]. rewrite Hg1. cbn [slice_count].
+    apply big_page_area; try assumption; unfold psize, MI_SLICES_PER_SEGMENT, MI_MAX_ALIGN_GUARANTEE, MI_SEGMENT_SLICE_SIZE; lia. }
+  unfold init_cpage. rewrite Ep1.
+  assert (Ediv : psize / psize = 1) by (apply N.div_same; lia).
+  assert (Echk : (0 <? psize) && (psize <=? psize) && (psize / psize <? 65536) = true).
+  { rewrite Ediv. apply andb_true_intro. split; [apply andb_true_intro; split|reflexivity]; [apply N.ltb_lt; assumption|apply N.leb_refl]. }
+  rewrite Echk.
+  destruct (page_init_facts psize psize false Hps0 ltac:(rewrite Ediv; lia)) as (_ & Fb & Fr & _ & _).
+  cbn [cp_page]. rewrite Fr, Ediv. cbn [N.eqb Pos.eqb].
+  (* pop *)
+  unfold pop_block, find_seg. cbn [kfind set_pages cs_base]. rewrite N.eqb_refl.
+  unfold find_page. cbn [cs_pages set_pages kfind cp_idx]. rewrite N.eqb_refl. cbn [cp_page]. rewrite Fb.
+  assert (Esz : (size <=? psize) = true) by (apply N.leb_le; unfold psize, MI_SEGMENT_SLICE_SIZE; lia). rewrite Esz.
+  pose proof (page_init_free psize psize false Hps0 (N.le_refl _) ltac:(rewrite Ediv; lia)) as Hfree.
+  unfold page_malloc. destruct (free (page_init psize psize false)) as [|b rest]; [contradiction|].
   eexists _, _. reflexivity.
 Qed.
